@@ -388,7 +388,14 @@ def c14(tier):
     model_replay("C14", tier, ev, rep, "MC_Curve.tla", "MC_Curve_wide_clean_quick.cfg")
     driver_curves("C14", tier, ev, rep, 12 if tier == "quick" else 300, 8 if tier == "quick" else 14)
     return finish(ev, rep)
-c09 = simple("C09", [("MC_Curve.tla", "MC_Curve_deriv_TIER.cfg"), ("MC_Curve.tla", "MC_Curve_wide_calc_quick.cfg")])
+def c09(tier):
+    ev = Evidence("C09", tier, core.seed())
+    rep = Reporter("C09", ev)
+    model_replay("C09", tier, ev, rep, "MC_Curve.tla", f"MC_Curve_deriv_{tier}.cfg")
+    model_replay("C09", tier, ev, rep, "MC_Curve.tla", "MC_Curve_wide_calc_quick.cfg")
+    # the same curves with plain Python ints for every integral knot, point and weight (values to 1e-9)
+    model_replay_cached("C09", tier, ev, rep, "MC_Curve.tla", "MC_Curve_deriv_quick.cfg", "int-knots", {}, stride=2 if tier == "quick" else 1)
+    return finish(ev, rep)
 def high_degree_fit_crossmode(prop, ev, rep):
     """fit_curve for degrees 5..7 with different interior breaks in source and target.  The exact L2 integrals of such
     products (degree up to 14) are beyond the closed Newton-Cotes constants of Approx.tla (degree <= 9), so there is no
@@ -432,6 +439,7 @@ def c11(tier):
     rep = Reporter("C11", ev)
     model_replay("C11", tier, ev, rep, "MC_Curve.tla", f"MC_Curve_fitcurve_{tier}.cfg")
     model_replay("C11", tier, ev, rep, "MC_Curve.tla", "MC_Curve_fitcurve_gap_quick.cfg")
+    model_replay("C11", tier, ev, rep, "MC_Curve.tla", "MC_Curve_fitcurve_bezier_quick.cfg", vector=False)
     high_degree_fit_crossmode("C11", ev, rep)
     return finish(ev, rep)
 def default_nodes_equivariant(ev, rep, records):
@@ -803,6 +811,16 @@ def c16(tier):
         if "basis" in cfg:
             continue
         model_replay_cached("C16", tier, ev, rep, module, cfg, "huge", cache, stride=4 if tier == "quick" else 1)
+    # plain Python ints for every integral number (knots too): values to 1e-9, whatever the types
+    for module, cfg in scen[:6] + [("MC_Curve.tla", "MC_Curve_deriv_quick.cfg")]:
+        model_replay_cached("C16", tier, ev, rep, module, cfg, "int-knots", cache, stride=3 if tier == "quick" else 1)
+    # float knots at 2^20 with spans of 2^-10 (dyadic knots and parameters only: the float input is the exact input)
+    from .replay import dyadic
+    for module, cfg in (scen[0], scen[1]):
+        model_replay_cached("C16", tier, ev, rep, module, cfg, "far-float", cache,
+                            filt=lambda t: t["d"] == 1 and all(dyadic(x) for x in t["pre"]["a"]["U"]) and (
+                                (t["act"]["name"] == "FnBasis" and dyadic(t["act"]["u"])) or
+                                (t["act"]["name"] == "CvEval" and t["ret"]["class"] == "ok" and all(dyadic(x) for x in t["act"]["nodes"]))))
     # rational curves written with weights of size 1e-12 (exact): same curves, same results up to that scale
     for module, cfg in scen[:5]:
         model_replay_cached("C16", tier, ev, rep, module, cfg, "tiny-weights", cache,
@@ -1009,7 +1027,7 @@ def replay_file(prop, path):
         return 0
     if t is not None and isinstance(t, dict) and "act" in t and "pre" in t:
         val = Validator()
-        r = Replayer(lib, d.get("mode", "fraction") if d.get("mode") in ("fraction", "int", "float", "numpy.float64", "huge", "minimal-point", "tiny-weights", "stretch") else "fraction",
+        r = Replayer(lib, d.get("mode", "fraction") if d.get("mode") in ("fraction", "int", "float", "numpy.float64", "huge", "minimal-point", "tiny-weights", "stretch", "int-knots", "far-float") else "fraction",
                      validator=val)
         live = r.build(t["pre"])
         r.reset_module_state()
